@@ -3,7 +3,6 @@
 mod rng;
 mod util;
 mod tables;
-mod c19;
 
 use std::cell::RefCell;
 use std::io::{BufRead, Write};
@@ -12,17 +11,14 @@ thread_local! { pub static LAST_PANIC: RefCell<String> = RefCell::new(String::ne
 
 pub type GenFn = fn(tier: &str, rng: &mut rng::Rng, out: &mut Vec<String>);
 pub type ExecFn = fn(op: &str, args: &[&str]) -> Option<String>;
+pub type TablesFn = fn(w: &mut dyn std::io::Write);
 
-fn registry() -> Vec<(&'static str, GenFn, ExecFn)> {
-    vec![
-        ("C19", c19::gen as GenFn, c19::exec as ExecFn),
-    ]
-}
+include!(concat!(env!("OUT_DIR"), "/registry.rs"));
 
 fn exec_line(line: &str) -> String {
     let parts: Vec<&str> = line.split(' ').collect();
     let op = parts[0];
-    for (_, _, ex) in registry() {
+    for (_, _, ex, _) in registry() {
         if let Some(r) = util::guarded(|| match ex(op, &parts[1..]) { Some(s) => s, None => "\u{0}".into() }).into() {
             let r: String = r;
             if r != "\u{0}" { return r; }
@@ -40,14 +36,14 @@ fn main() {
     let stdout = std::io::stdout();
     let mut w = std::io::BufWriter::new(stdout.lock());
     match args.get(1).map(|s| s.as_str()) {
-        Some("tables") => { tables::print(&mut w); }
+        Some("tables") => { tables::print(&mut w); for (_, _, _, t) in registry() { t(&mut w); } }
         Some("gen") => {
             let prop = &args[2];
             let tier = args.get(3).map(|s| s.as_str()).unwrap_or("quick");
             let seed: u64 = args.get(4).and_then(|s| s.parse().ok()).unwrap_or(1);
             let mut rng = rng::Rng::new(seed);
             let mut reqs = Vec::new();
-            for (p, g, _) in registry() { if p == prop { g(tier, &mut rng, &mut reqs); } }
+            for (p, g, _, _) in registry() { if p == prop { g(tier, &mut rng, &mut reqs); } }
             for r in reqs { let o = exec_line(&r); writeln!(w, "{}\t{}", r, o).unwrap(); }
         }
         Some("replay") => {
